@@ -44,7 +44,7 @@ def extra(res, rnd, cases):
 
 INFO, run, replay = sessprop.make(
     'C08', ['out.msg', 'out.text', 'out.eof', 'final.conn.count', 'final.ctrl.all'],
-    ['Proofs/SessionProofs.v', 'Proofs/ControllerProofs.v'],
+    ['Proofs/SessionProofs.v', 'Proofs/ControllerProofs.v', 'Proofs/StreamSpecA.v', 'Proofs/StreamSpecB.v'],
     ['theorems are about WD.Session.run / step; tied to Parser.parse_all/cleanup and Output.show/unprocessed by streams with 30% non-message lines (chatter, blank lines, look-alikes) under both --supress settings: the implementation reads from a fake file whose readline() marks the output position, so the items attributed to each input line (and therefore produced before the next read) are compared with the model line by line; plus truncation at every line (short inputs) / 8 random lines (long inputs) on the implementation',
      'what the model cannot exhibit: CPython/OS buffering of the real stdout when it is a pipe (covered by C13 process-level runs)'],
     'C08_prefix_closed / C08_truncation / C08_text_passthrough / C08_message_item', gen, nontriv,
